@@ -76,9 +76,9 @@ def step (st : DState) (line : String) : DState × Option String :=
   | [id, "B", src] => (st, some s!"{id} {canonOut (buildStr st.fs (unhexStr src))}")
   | [id, "X", t] => (st, some s!"{id} {exprCanon (unhexStr t)}")
   | [id, "H", img] =>
-    -- the code writer gets the image, the EEPROM writer the same image with every byte xor 0x5a
+    -- the code writer gets the image, the EEPROM writer the image reversed (runs of 0xFF / 0x00 stay runs)
     let bs := unhexNats img
-    let es := bs.map fun b => Nat.xor b 0x5a
+    let es := bs.reverse
     -- very large images: the EEPROM file is reported for every third length only (both sides of the protocol)
     let e := if bs.length ≤ 70000 ∨ bs.length % 3 = 0 then hexOfStr (Hex.fileText es) else "-"
     (st, some s!"{id} HEX2 {hexOfStr (Hex.fileText bs)} {e}")
